@@ -111,7 +111,7 @@ def confirm(d):
             rc, o = sh("go test -count=1 ./%s/" % p, wt)
             if rc != 0:
                 failed = set(re.findall(r"^--- FAIL: (\w+)", o, re.M))
-                if "vet:" in o and not failed:
+                if not failed:  # e.g. a vet complaint about the existing test file: retry without vet
                     rc, o = sh("go test -vet=off -count=1 ./%s/" % p, wt)
                     failed = set(re.findall(r"^--- FAIL: (\w+)", o, re.M))
                     if rc == 0:
